@@ -7,6 +7,7 @@ import Lattigo.Model.KeySwitch
 import Lattigo.Proofs.Gadget
 import Mathlib.Tactic.Ring
 import Mathlib.Algebra.Ring.Hom.Defs
+import Mathlib.Algebra.Group.Hom.Defs
 
 set_option linter.unusedSectionVars false
 
@@ -195,6 +196,33 @@ theorem automorphismHoistedLazy_phase (σ : α →+* α) (σinv : α → α) (x 
     _ = σ (P * (c0 + c1 * s) + E) := by rw [hx]; congr 1; ring
 
 end users
+
+/-! ### ring-degree switch -/
+
+section degree
+variable {A β : Type} [CommRing A] [CommRing β]
+
+/-- small → large: `ι : Y ↦ X^{N/n}` is a ring homomorphism; the output decrypts under `s_large` to the
+    embedded phase of the input. -/
+theorem applyEvaluationKeyUp_phase (ι : β →+* A) (ksOf : A → A × A) (ct : β × β) (sS : β) (sL ν : A)
+    (hks : phase (ksOf (ι ct.2)) sL = ι ct.2 * ι sS + ν) :
+    phase (applyEvaluationKeyUp ι ksOf ct) sL = ι (phase ct sS) + ν := by
+  simp only [applyEvaluationKeyUp]
+  rw [applyEvaluationKey_phase (ksOf (ι ct.2)) (ι ct.1, ι ct.2) (ι sS) sL ν hks]
+  simp [phase]
+
+/-- large → small: `ρ` (keep the coefficients of `X^{k·N/n}`) is additive and `R_small`-linear
+    (`ρ(x·ι(s)) = ρ(x)·s`); the output decrypts under `s_small` to `ρ` of the input's phase. -/
+theorem applyEvaluationKeyDown_phase (ι : β → A) (ρ : A →+ β) (hρ : ∀ x s, ρ (x * ι s) = ρ x * s)
+    (ks ct : A × A) (sL : A) (sS : β) (ν : A)
+    (hks : phase ks (ι sS) = ct.2 * sL + ν) :
+    phase (applyEvaluationKeyDown ρ ks ct) sS = ρ (phase ct sL) + ρ ν := by
+  have h := applyEvaluationKey_phase ks ct sL (ι sS) ν hks
+  simp only [applyEvaluationKeyDown]
+  simp only [phase] at h ⊢
+  rw [← hρ, ← map_add, h, map_add]
+
+end degree
 
 /-! ### hoisted = plain -/
 
